@@ -410,6 +410,7 @@ class H5Store:
 
 def h5_reset():
     H5Store.files = {}
+    MemFiles.files = {}
 
 
 class _Attrs:
@@ -800,3 +801,41 @@ def make_math():
         return _math.floor(x)
     m.ceil, m.floor = ceil, floor
     return m
+
+
+# =========================================================================== in-memory text files
+class MemFiles:
+    files = {}
+
+
+class _MemFile:
+    def __init__(self, path, mode):
+        self.path, self.mode = path, mode
+        if "w" in mode:
+            MemFiles.files[path] = ""
+        elif path not in MemFiles.files:
+            raise FileNotFoundError(path)
+        self.pos = 0
+
+    def write(self, s):
+        MemFiles.files[self.path] += s
+        return len(s)
+
+    def read(self):
+        return MemFiles.files[self.path]
+
+    def __enter__(self):
+        return self
+
+    def __exit__(self, *a):
+        return False
+
+    def close(self):
+        pass
+
+
+def mem_open(path, mode="r", *a, **k):
+    if isinstance(path, str) and path.startswith("/mem/"):
+        return _MemFile(path, mode)
+    import builtins
+    return builtins.open(path, mode, *a, **k)
